@@ -40,9 +40,9 @@ Proof.
   - destruct (y_state a); reflexivity.
 Qed.
 
-Lemma pm_final_live : forall cfg d e o m, m_live (pm_final cfg d e o m) = live_after e o (m_live m).
+Lemma pm_final_live : forall cfg pre d e o m, m_live (pm_final cfg pre d e o m) = live_after e o (m_live m).
 Proof.
-  intros cfg d e o m. unfold pm_final. rewrite retry_fold_live. unfold pm3. rewrite c02_fold_live. unfold live_after. f_equal.
+  intros cfg pre d e o m. unfold pm_final. rewrite retry_fold_live. rewrite pm_clear_eq. cbn [m_live set]. unfold pm3. rewrite c02_fold_live. unfold live_after. f_equal.
   unfold pm2. cbn [m_live set]. unfold pm1. cbv zeta.
   assert (H : m_live (mon_event e m) = if is_start e then ev_call e :: m_live m else m_live m) by apply mon_event_live.
   destruct e; try exact H. destruct (existsb _ o); [|exact H]. destruct (x_sel a) as [[[? ?] ?] l]. exact H.
@@ -64,11 +64,11 @@ Proof.
   specialize (Hn x (or_introl eq_refl)). destruct x; cbn [live_obs ends] in *; try exact H; apply remove_nat_keeps; try exact H; apply Nat.eqb_neq; exact Hn.
 Qed.
 
-Lemma Inv_live_step : forall cfg t0 pfx eh m d,
+Lemma Inv_live_step : forall cfg t0 pfx eh m pre d,
   Inv_live cfg t0 pfx m ->
-  Inv_live cfg t0 (pfx ++ [eh]) (pm_final cfg d (fst eh) (snd (step (fst (run (init cfg t0) pfx)) eh)) m).
+  Inv_live cfg t0 (pfx ++ [eh]) (pm_final cfg pre d (fst eh) (snd (step (fst (run (init cfg t0) pfx)) eh)) m).
 Proof.
-  intros cfg t0 pfx [e h] m d H c Hs Hn. rewrite pm_final_live. unfold live_after. cbn [fst].
+  intros cfg t0 pfx [e h] m pre d H c Hs Hn. rewrite pm_final_live. unfold live_after. cbn [fst].
   rewrite run_snoc_snd, concat_app in Hn. cbn [List.concat] in Hn. rewrite app_nil_r in Hn.
   apply live_fold_keeps; [|intros x Hx; apply Hn; apply in_or_app; right; exact Hx].
   destruct Hs as [e' [h' [Hin [Hst Hc]]]]. apply in_app_or in Hin. destruct Hin as [Hin|[E|[]]].
@@ -190,7 +190,7 @@ Proof.
   apply (trace_sub_generic cfg t0 [12%nat] (fun pfx m _ => Inv_live cfg t0 pfx m)) with (pfx := []) (m := mon0) (pre := empty_dump);
     [|split; [exact Hsel|split; assumption]|intros [o [what [[] _]]]|apply Inv_live_init].
   intros pfx eh m pre Hg Hnp HI. cbv zeta.
-  pose proof (Inv_live_step cfg t0 pfx eh m (observe (fst (step (fst (run (init cfg t0) pfx)) eh))) HI) as HI'.
+  pose proof (Inv_live_step cfg t0 pfx eh m pre (observe (fst (step (fst (run (init cfg t0) pfx)) eh))) HI) as HI'.
   split; [|exact HI']. cbn [forallb]. rewrite andb_true_r. apply String.eqb_eq.
   unfold p_components. cbv zeta. cbn [nth]. rewrite <- (run_snoc_fst pfx eh (init cfg t0)).
   apply c06_final_ok; [exact (proj1 (proj2 Hg))|exact Hnp|].
